@@ -240,6 +240,24 @@ def user_classes():
 
     _classes.update(Scale=Scale, Offset=Offset, PTop=PTop)
 
+    # blocks with INOUT ports that get a module of their own: a structural wrapper around BidirBuf
+    class Pad(py4hw.Logic):
+        def __init__(self, parent, name, din, dout, oe, pad):
+            super().__init__(parent, name)
+            self.addIn('dout', dout); self.addIn('oe', oe); self.addOut('din', din); self.addInOut('pad', pad)
+            py4hw.BidirBuf(self, 'iobuf', din, dout, oe, pad)
+
+    class PadPair(py4hw.Logic):
+        """two levels: the inout port is handed down through another structural block"""
+        def __init__(self, parent, name, din, dout, oe, pad):
+            super().__init__(parent, name)
+            self.addIn('dout', dout); self.addIn('oe', oe); self.addOut('din', din); self.addInOut('pad', pad)
+            t = self.wire('t', dout.getWidth())
+            py4hw.Buf(self, 'b', dout, t)
+            Pad(self, 'inner', din, t, oe, pad)
+
+    _classes.update(Pad=Pad, PadPair=PadPair)
+
     class Box2(py4hw.Logic):
         """structural user block: r = (a + b) ; lt = a < b  (no structureName: instance-unique module name)"""
         def __init__(self, parent, name, a, b, r, lt, variant=0):
@@ -295,14 +313,14 @@ def user_classes():
     return _classes
 
 
-FAMILIES = ['rand', 'lib', 'beh', 'alias', 'clk2', 'beh2', 'param']
+FAMILIES = ['rand', 'lib', 'beh', 'alias', 'clk2', 'beh2', 'param', 'inout']
 
 
 def build(family, seed):
     """reproducible from (family, seed).  All circuits are legal (every port connected)."""
     py4hw = common.quiet_import()
     U = user_classes()
-    rng = random.Random(seed * 7919 + {'rand': 1, 'lib': 2, 'beh': 3, 'alias': 4, 'bad': 5, 'clk2': 6, 'beh2': 7, 'param': 8}[family])
+    rng = random.Random(seed * 7919 + {'rand': 1, 'lib': 2, 'beh': 3, 'alias': 4, 'bad': 5, 'clk2': 6, 'beh2': 7, 'param': 8, 'inout': 9}[family])
     with quiet():
         if family == 'rand':
             for attempt in range(8):          # a library constructor may reject a random configuration: legal circuits only
@@ -379,6 +397,17 @@ def build(family, seed):
             if rng.random() < .5:                                         # a second parameterised block, other values
                 r2 = hw.wire('pr2', w)
                 U['PTop'](hw, 'top2', b, a, load, r2, rng.randrange(2, 6), rng.randrange(1, 4), rng.randrange(8))
+            return Circ(family, seed, hw, ins)
+        if family == 'inout':
+            # bidirectional nets: one or two pads (one- and two-level wrappers) on BidirWires, plus some ordinary logic
+            wd = rng.choice([1, 4, 8])
+            dout = hw.wire('dout', wd); oe = hw.wire('oe'); ins = [dout, oe]
+            n = rng.randint(1, 2)
+            for i in range(n):
+                pad = py4hw.BidirWire(hw, 'pad%d' % i, wd); din = hw.wire('din%d' % i, wd)
+                U['PadPair' if (rng.random() < .5) else 'Pad'](hw, 'io%d' % i, din, dout, oe, pad)
+            if rng.random() < .5:
+                q = hw.wire('q', wd); py4hw.Reg(hw, 'reg', dout, q)
             return Circ(family, seed, hw, ins)
         if family == 'clk2':
             # several clock domains: a named ClockDriver on a structural sub-block, registers below it (2-3 levels).
